@@ -111,6 +111,10 @@ fn run_relay_limits(stack: Stack) -> SimResult {
     crate::full::reset(false);
     draw_policy();
     net::with_net(|n| n.faults = false);
+    if profile() != Profile::None && choose(4) == 0 {
+        // some substreams die while their protocol is being negotiated; the connection stays up
+        net::with_net(|n| n.stream_reset_permille = [50, 200][choose(2)]);
+    }
     let max_res = 1 + choose(6);
     let max_res_peer = 1 + choose(3);
     let max_circ = 1 + choose(6);
